@@ -36,7 +36,7 @@ Qed.
 
 (* ------------------------------------------------------------------------ *)
 (** * The table is well formed when the keys are distinct words *)
-Lemma word_is_name c : is_word c = true -> Subst.name_charb c = true.
+Lemma word_is_name c : is_keychar c = true -> Subst.name_charb c = true.
 Proof.
   intros H. unfold Subst.name_charb.
   destruct (N.eqb c Subst.DOLLAR) eqn:E1; [apply N.eqb_eq in E1; subst; discriminate|].
